@@ -54,6 +54,8 @@ def run(c, prop, seconds, seeds, cwd, only_ops=None, jobs=16):
             n += 1
         findings = os.path.join(d, "findings.tsv")
         env = dict(os.environ)
+        if only_ops:
+            env["VH_FUZZ_OPS"] = ",".join(str(OP_INDEX[o]) for o in sorted(only_ops) if o in OP_INDEX)
         env.update({"VH_FUZZ_FINDINGS": findings, "VH_FUZZ_QUIET": "1", "ASAN_OPTIONS": "detect_leaks=0:allocator_may_return_null=1", "RUST_BACKTRACE": "0"})
         cmd = [binary, corpus, "-fork=%d" % jobs, "-ignore_crashes=1", "-ignore_timeouts=1", "-ignore_ooms=1", "-timeout=10", "-rss_limit_mb=4096",
                "-max_total_time=%d" % seconds, "-len_control=0", "-max_len=20000", "-artifact_prefix=%s/" % art]
@@ -79,10 +81,10 @@ def run(c, prop, seconds, seeds, cwd, only_ops=None, jobs=16):
         if os.path.exists(findings):
             for ln in open(findings, errors="replace"):
                 w = ln.rstrip("\n").split("\t")
-                if len(w) < 5:
+                if len(w) < 6:
                     continue
                 try:
-                    kind, op, msg, inp = w[0], w[1], core.unhx(w[2]).decode("utf-8", "replace"), core.unhx(w[4])
+                    kind, op, msg, inp = w[0], w[1], core.unhx(w[2]).decode("utf-8", "replace"), core.unhx(w[5])
                 except ValueError:
                     continue   # torn line
                 shape = dict(OPS).get(op, 0)
@@ -110,7 +112,8 @@ def run(c, prop, seconds, seeds, cwd, only_ops=None, jobs=16):
             data = open(a, "rb").read()
             if not data:
                 continue
-            op, shape = OPS[data[0] % len(OPS)]
+            allowed = [OP_INDEX[o] for o in sorted(only_ops) if o in OP_INDEX] if only_ops else []
+            op, shape = OPS[allowed[data[0] % len(allowed)]] if allowed else OPS[data[0] % len(OPS)]
             cases.append(core.Case("a%d" % i, op, fields(shape, data[1:]), {"artifact": os.path.basename(a)}))
         if cases:
             for lane in ("rel",):
